@@ -143,3 +143,14 @@ def _FR(it):
     fr = Frame(it.engine.loader.module(INL))
     fr.in_spec = True
     return fr
+
+# the propagation along ancestors and constrained primitives (incl. topological processing) is not under contract:
+# examples-bounded check on the real pipeline
+from pyvc.units import Native  # noqa: E402
+
+UNITS.append(Native(
+    "constraints inferred for the harness meta-model equal the conjunction of its invariants", ["C15", "C12", "C14"],
+    "native.c15:inferred_for_harness_model", kind="examples",
+    bound="the meta-model of native/c11.py: 11 (class, property) pairs with length bounds and patterns from the class "
+          "itself, an ancestor, constrained primitives, a descendant primitive tightening both bounds and a chain of "
+          "primitives declared child-first; expected values worked out by hand from the invariants", args={}))
